@@ -3,6 +3,7 @@ them.  Everything is drawn from ONE random.Random(seed); generation is online
 (tasks look at the world's pools) and every emitted op is a self-contained
 JSON object, so the recorded op list alone replays the run."""
 import math
+import numpy as _np
 import random
 
 from . import adapter as A
@@ -623,6 +624,23 @@ class Editor(Task):
                 a.update({"kk": g.r(0.5, 2.0, 2), "h": g.r(0.5, 2.0, 2), "T": g.r(-1.0, 3.0, 2),
                           "rev": A.SIDE_LOW[side]})
             return {"k": "bc_util", "a": a}
+        if u < pbias + 0.25 + (0.1 if g.prop == "C03" else 0.04):
+            # the same condition written with other numbers: (a, b, c) * factor
+            kd = {"d": "const", "x": g.r(0.3, 3.0, 2), "scalar": True} if rng.random() < 0.5 \
+                else {"d": "rand", "lo": 0.3, "hi": 3.0, "s": g.seed()}
+            return {"k": "bc_scale", "a": {"b": b, "side": side, "k": kd,
+                                           "neg": rng.random() < 0.4}}
+        st = g.w.ents[b].meta.get("state", {}).get(side)
+        if st is not None and rng.random() < 0.06:
+            # pure Dirichlet / pure Neumann written with a coefficient other than 1
+            if _np.all(_np.abs(st["b"]) >= 0.4):
+                return {"k": "bc_edit", "a": {"b": b, "side": side, "coef": "a", "how": "assign",
+                                              "val": {"d": "const", "x": 0.0, "scalar": True},
+                                              "sl": g.slspec(2)}}
+            if _np.all(_np.abs(st["a"]) >= 0.4):
+                return {"k": "bc_edit", "a": {"b": b, "side": side, "coef": "b", "how": "assign",
+                                              "val": {"d": "const", "x": 0.0, "scalar": True},
+                                              "sl": g.slspec(2)}}
         coef = rng.choice(("a", "b", "c", "c"))
         how = rng.choice(("assign", "full", "slice", "item2", "imul"))
         a = {"b": b, "side": side, "coef": coef, "how": how, "sl": g.slspec(2),
